@@ -207,6 +207,8 @@ pub struct OutState {
     pub dropped_at: Option<u64>,
     pub waiting: Option<TaskId>,
     pub depth: usize,
+    /// the depth was changed after the consumer's last successful read (changing the depth notifies nobody: the promise is about reads)
+    pub depth_dirty: bool,
 }
 
 #[derive(Clone, Debug, serde::Serialize, serde::Deserialize, PartialEq)]
@@ -287,6 +289,7 @@ pub struct Cover {
     pub select_left_waker: u64,
     pub drops_while_panicking: u64,
     pub kept_wakers: u64,
+    pub depth_changes: u64,
     /// state of the object's queue at the moment each kind of call / event reached it (reach matrix)
     pub at_desync: [u64; 8],
     pub at_sync: [u64; 8],
@@ -523,7 +526,7 @@ impl World {
                     cancelled_items: 0,
                 })
                 .collect(),
-            outs: (0..prog.n_outs).map(|_| OutState { stream: None, taken: false, src: None, outputs: vec![], ended: false, dropped_at: None, waiting: None, depth: 5 }).collect(),
+            outs: (0..prog.n_outs).map(|_| OutState { stream: None, taken: false, src: None, outputs: vec![], ended: false, dropped_at: None, waiting: None, depth: 5, depth_dirty: false }).collect(),
             handles: (0..prog.n_handles).map(|_| HandleSlot::Empty).collect(),
             hrec: (0..prog.n_handles).map(|_| mk_h()).collect(),
             ops,
